@@ -153,6 +153,8 @@ structure Watch where
   spendRegs : List SpendReg := []
   spendMap : Option Nat := none
   expiry : Option Nat := none
+  confDirty : Bool := false   -- a live conf registration was cancelled: its goroutine is winding down
+  spendDirty : Bool := false
 deriving Repr
 
 inductive Effect where
@@ -192,37 +194,61 @@ def write (s : AState) (a : Acct) : AState :=
 def maybeBroadcast (s : AState) (t : Tx) : AState :=
   if t.signed then { s with trace := s.trace ++ [.publish t] } else s
 
+/-- was the registration with this id still live (cancelling it makes its goroutine exit)? -/
+def liveConf (w : Watch) (id : Nat) : Bool := w.confRegs.any (fun r => r.id == id)
+def liveSpend (w : Watch) (id : Nat) : Bool := w.spendRegs.any (fun r => r.id == id)
+
 /-- `controller.WatchAccountConf`: cancel the handle in the map (if any), register, store the handle. -/
 def regConf (s : AState) (txid : Nat) (sc : Script) : AState :=
   let regs := match s.w.confMap with
     | some id => s.w.confRegs.filter (fun r => r.id != id)
     | none => s.w.confRegs
+  let dirty := match s.w.confMap with
+    | some id => s.w.confDirty || liveConf s.w id
+    | none => s.w.confDirty
   { s with
     w := { s.w with
       confRegs := regs ++ [{ id := s.nextReg, txid := txid, script := sc }]
-      confMap := some s.nextReg }
+      confMap := some s.nextReg
+      confDirty := dirty }
     nextReg := s.nextReg + 1 }
 
 def regSpend (s : AState) (op : OutPoint) (sc : Script) : AState :=
   let regs := match s.w.spendMap with
     | some id => s.w.spendRegs.filter (fun r => r.id != id)
     | none => s.w.spendRegs
+  let dirty := match s.w.spendMap with
+    | some id => s.w.spendDirty || liveSpend s.w id
+    | none => s.w.spendDirty
   { s with
     w := { s.w with
       spendRegs := regs ++ [{ id := s.nextReg, op := op, script := sc }]
-      spendMap := some s.nextReg }
+      spendMap := some s.nextReg
+      spendDirty := dirty }
     nextReg := s.nextReg + 1 }
 
 /-- `controller.CancelAccountConf`: cancels the handle, the map entry stays. -/
 def cancelConf (s : AState) : AState :=
   match s.w.confMap with
-  | some id => { s with w := { s.w with confRegs := s.w.confRegs.filter (fun r => r.id != id) } }
+  | some id => { s with w := { s.w with confRegs := s.w.confRegs.filter (fun r => r.id != id),
+                                        confDirty := s.w.confDirty || liveConf s.w id } }
   | none => s
 
 def cancelSpend (s : AState) : AState :=
   match s.w.spendMap with
-  | some id => { s with w := { s.w with spendRegs := s.w.spendRegs.filter (fun r => r.id != id) } }
+  | some id => { s with w := { s.w with spendRegs := s.w.spendRegs.filter (fun r => r.id != id),
+                                        spendDirty := s.w.spendDirty || liveSpend s.w id } }
   | none => s
+
+/-- the goroutines of cancelled registrations see lnd's `Canceled` stream error and exit; their deferred
+clean-up deletes the map entry of the account – *whichever* registration it belongs to by then (the map is
+keyed by the trader key only), without cancelling it. -/
+def flush (s : AState) : AState :=
+  { s with w := { s.w with
+      confMap := if s.w.confDirty then none else s.w.confMap
+      spendMap := if s.w.spendDirty then none else s.w.spendMap
+      confDirty := false
+      spendDirty := false } }
 
 /-- `HandleAccountExpiry` -/
 def handleExpiry (s : AState) : AState :=
@@ -297,6 +323,11 @@ def watchers (s : AState) (a : Acct) (acts : List String) : AState :=
   let s := if acts.contains "handleStateOpen" then handleStateOpen s a else s
   if acts.contains "WatchAccountSpend" then regSpend s a.outpoint (a.script s.key) else s
 
+/-- a clause that (re-)registers the account's expiry with the watcher directly (the pending update / batch
+clause once the expiry-tracking fix is in; absent before) -/
+def expiryRearm (s : AState) (a : Acct) (acts : List String) : AState :=
+  if acts.contains "WatchAccountExpiration" then watchExpiration s a.expiry else s
+
 /-- the auctioneer subscription is the *last* step of the clauses that have one (`handleStateOpen`, and the
 pending-batch clause): when it fails the watchers are armed already and only the result is an error -/
 def subscribeRes (s : AState) (a : Acct) (acts : List String) : Res :=
@@ -310,7 +341,7 @@ def resumeRest (s : AState) (a : Acct) (onRestart : Bool) : AState × Res :=
   | none => (s, .err)
   | some acts =>
     let r := rebroadcast s a onRestart acts
-    if r.2 = .ok then (watchers r.1 a acts, subscribeRes s a acts) else r
+    if r.2 = .ok then (expiryRearm (watchers r.1 a acts) a acts, subscribeRes s a acts) else r
 
 /-- does the stored / reported latest transaction itself carry the account output? -/
 def viaFull (key : Nat) (a : Acct) : Bool :=
@@ -421,8 +452,13 @@ def modify (s : AState) (k : Kind) (m : ModArgs) : AState × Res :=
           latestTx := some t }
         -- spendAccount: UpdateAccount, then maybeBroadcastTx
         let s := maybeBroadcast (write s a') t
-        let s := if k = .renew && Lifecycle.renewAccountCalls.contains "WatchAccountExpiration"
-          then watchExpiration s a'.expiry else s
+        -- RenewAccount always re-registers the expiry; Deposit / WithdrawAccount (with the
+        -- expiry-tracking fix) when the request changes it
+        let rearm := match k with
+          | .renew => Lifecycle.renewAccountCalls.contains "WatchAccountExpiration"
+          | .deposit => Lifecycle.depositAccountCalls.contains "WatchAccountExpiration" && m.newExpiry != 0
+          | .withdraw => Lifecycle.withdrawAccountCalls.contains "WatchAccountExpiration" && m.newExpiry != 0
+        let s := if rearm then watchExpiration s a'.expiry else s
         (s, .ok)
 
 /-- `CloseAccount` → `spendAccount(CLOSE)` -/
@@ -561,6 +597,7 @@ inductive Op where
   | watchMatched
   | restart (feeOk : Bool) (fundTx : Option (Nat × Nat))
   | recover (a : Acct) (known : List Tx) -- RecoverAccount (C20), `known` = wallet transactions
+  | flush                                -- cancelled watcher goroutines wind down
 deriving Repr
 
 def step (s : AState) : Op → AState × Res
@@ -620,6 +657,7 @@ def step (s : AState) : Op → AState × Res
     let s := { s with wallet := known }
     let a := { a with secret := s.signerSecret }
     resume (write s a) a false true false none
+  | .flush => (flush s, .ok)
 
 def run (s : AState) : List Op → AState
   | [] => s
